@@ -220,6 +220,14 @@ def run(ctx):
                 bad = f"{len(r['runs'])} run(s) for an occurrence the guard accepts"
         ctx.check(bad is None, "R07.6", WATCH, f"legacy {kind} occurrence: @state_active evaluated on the occurrence's values",
                   msg=f"legacy trigger_watch, {kind} occurrence: {bad}", key=f"legacy state_active inputs {kind}", node=program.func(WATCH), rel="trigger.py")
+    ctx.rule("R07.10", "a held run is judged by @state_active on the values of the event that started the hold (the same event whose arguments the function receives)", floor=2)
+    from .c05 import hold_expiry_rule
+    hold_expiry_rule(ctx, program, "R07.10")
+
+    ctx.rule("R07.11", "values handed to @state_active: the occurrence's own values win over remembered ones; unknown names default to None", floor=40)
+    from .c04 import var_get_table
+    var_get_table(ctx, program, "R07.11")
+
     ctx.rule("R07.9", "legacy loop: an occurrence taken from the queue is judged by @time_active at a clock reading made after it arrived (time triggers: at their own instant)", floor=2)
     legacy_now_freshness(ctx, program, "R07.9")
 
